@@ -300,6 +300,25 @@ func genTranscode(g *G, tier string, emit func(string)) {
 		if g.chance(0.15) && len(item) > 1 {
 			emitC(item[:g.intn(len(item))])
 		}
+		// the error side: a head replaced by one with a reserved additional-information value (28..30),
+		// or an arbitrary byte changed
+		if g.chance(0.2) && len(item) > 0 {
+			m := append([]byte{}, item...)
+			k := g.intn(len(m))
+			if g.chance(0.7) {
+				m[k] = m[k]&0xe0 | byte(28+g.intn(3))
+			} else {
+				m[k] = byte(g.intn(256))
+			}
+			emitC(append(m, make([]byte, g.intn(3)*8)...))
+		}
+	}
+	for major := 0; major < 8; major++ {
+		for ai := 28; ai <= 31; ai++ {
+			h := byte(major<<5 | ai)
+			emitC(append([]byte{h}, make([]byte, 17)...))
+			emitC(append([]byte{0x82, 0x01, h}, bytes.Repeat([]byte{0x07}, 17)...))
+		}
 	}
 }
 
